@@ -38,6 +38,11 @@ package main
 //     client's packet size does not exceed the server's maximum payload" and not asked here.)
 // (c) race: goroutines hammer ReadAt/WriteAt/Stat/Truncate while two others call Close; the raw
 //     client->server byte stream is parsed: one CLOSE frame, no frame with that handle after it.
+// (b5/b6) the same generators against the request server over sftp.InMemHandler() (xfer_inmem.go), and histories of one
+//     file (xfer_hist.go; op ro = Close + open the same name again, possibly with O_TRUNC / Create()).
+// (d) the reply to the CLOSE request itself (c12_closereply.go): a failure status, a cut connection, a handler object
+//     whose Close() fails - the File is closed all the same: every method afterwards answers os.ErrClosed, one CLOSE
+//     was sent, nothing naming the handle follows.
 // Model: every sequence is also evaluated by the Lean driver op xfer.seq (when present).
 
 import (
@@ -70,8 +75,15 @@ func init() {
 const xfKeyF12 = "writeto-concurrent/offset-after-eof"
 
 type xfOp struct {
-	K    string `json:"k"`             // r ra w wa rf rfc wt sk st tr cl nm
-	Act  string `json:"act,omitempty"` // nm: rename remove rotate replace dir symlink dangling (N: size of the file the name shows afterwards)
+	// r ra w wa rf rfc wt sk st tr cl nm; ro: Close, then open the same name again in mode Act (xfOpenModeList: a mode that
+	// reads and writes; the O_TRUNC modes and Create() shrink the file to nothing on the way); cm co sy: Chmod, Chown, Sync
+	// (written after a Close only: each must answer os.ErrClosed)
+	K string `json:"k"`
+	// nm: rename remove rotate replace dir symlink dangling (N: size of the file the name shows afterwards); ro: the open
+	// mode; cl: what happens to the CLOSE request itself (c12_closereply.go) - "" answered OK, "refuse" answered with
+	// the failure status Code, "cut" the connection is cut instead of an answer (scripted peer), "handler" the
+	// request server's file object fails its Close() with the error value Src names (xfHandlerErrs)
+	Act  string `json:"act,omitempty"`
 	N    int    `json:"n,omitempty"`
 	Off  int64  `json:"off,omitempty"`
 	Wh   int    `json:"whence,omitempty"`
@@ -110,6 +122,9 @@ func (o xfOp) model() string {
 	case "rfc":
 		return fmt.Sprintf("rfc:%d:%d:%d", o.N, o.Seed, o.Conc)
 	case "wt", "cl", "st":
+		if o.Act != "" {
+			return "" // what happens to the CLOSE request is outside the driver's call syntax
+		}
 		return o.K
 	case "sk":
 		if o.Wh < 0 { // the driver's call syntax has no negative whence
@@ -445,7 +460,7 @@ func xfRunSeq(sc xfSeqCase, real *xfReal, hold *xfPeerHold, dir string) (res xfS
 		res.SetupErr = err
 		return
 	}
-	defer tw.Close()
+	defer func() { tw.Close() }()
 	var f *sftp.File
 	if ok, _ := xfGuardK(kase, func() { f, err = mode.Open(cli, path) }); !ok || err != nil {
 		if sc.Open != "" && ok {
@@ -455,13 +470,16 @@ func xfRunSeq(sc xfSeqCase, real *xfReal, hold *xfPeerHold, dir string) (res xfS
 		res.SetupErr = fmt.Errorf("open: %v (returned=%v)", err, ok)
 		return
 	}
-	hung := false
+	hung, cutConn := false, false
 	defer func() {
 		if hung {
 			go f.Close() // (a call that never returned holds the File's lock: Close would wait for it forever)
 			return
 		}
 		f.Close()
+		if cutConn && hold != nil {
+			hold.Close() // the connection of this peer was cut: the next case gets a new one
+		}
 	}()
 	// independent descriptors: both files stay readable whatever happens to their names
 	twRef, err := os.Open(twinPath)
@@ -501,7 +519,7 @@ func xfRunSeq(sc xfSeqCase, real *xfReal, hold *xfPeerHold, dir string) (res xfS
 			peer.SetBehaviour(func(o *xfPeerOpts) { o.PathView = nil })
 		case real.Mem != nil:
 			real.Mem.SetNameView(path0, xfNameView{})
-		default:
+		case real.Spec.Kind == "os":
 			xfNameCleanup(path0)
 		}
 	}()
@@ -509,6 +527,7 @@ func xfRunSeq(sc xfSeqCase, real *xfReal, hold *xfPeerHold, dir string) (res xfS
 		res.Fails = append(res.Fails, xfSeqFailure{Key: key, What: what, At: at, Expected: exp, Actual: act})
 	}
 	closed := false
+	wantCloses := 1 // CLOSE requests the whole sequence must send: one, and one more for every reopening (op ro)
 	lastOff := int64(0)
 	// virt: the File offset as the seek arithmetic gives it, while it is a position the os.File twin cannot be at (the
 	// file system of the twin refuses positions beyond its maximal file size; an sftp.File has no such limit). Only
@@ -539,7 +558,15 @@ func xfRunSeq(sc xfSeqCase, real *xfReal, hold *xfPeerHold, dir string) (res xfS
 				peer.SetBehaviour(func(o *xfPeerOpts) { o.PathView = &v })
 			case real.Mem != nil:
 				real.Mem.SetNameView(path0, nv)
+			case real.Spec.Kind != "os":
+				// (sftp.InMemHandler: its names are not the host's; the generators write no nm steps for it)
+				res.SetupErr = fmt.Errorf("a name disturbance needs the os-backed server, the harness's handlers or the scripted peer")
+				return
 			default:
+				if ok, why := lib.InScratch("", path0); !ok {
+					res.SetupErr = fmt.Errorf("name disturbance outside the scratch directory not run: %s", why)
+					return
+				}
 				if err := xfDisturbName(path0, op.Act, op.N, view.Kind == "same"); err != nil {
 					res.SetupErr = fmt.Errorf("served file: %v", err)
 					return
@@ -548,6 +575,84 @@ func xfRunSeq(sc xfSeqCase, real *xfReal, hold *xfPeerHold, dir string) (res xfS
 			view = nv
 			res.Marks["call=nm|"+op.Act]++
 			continue
+		}
+		if op.K == "ro" {
+			// Close, then open the same name again in another mode, on both sides alike. (The model has one handle.)
+			m, okm := xfOpenModeByName(op.Act)
+			if closed || !okm || !m.Reads() || !m.Writes() || m.Refuse || m.Fresh || view.Kind != "same" || noRead {
+				res.SetupErr = fmt.Errorf("reopening (op ro, mode %q) is not possible at call #%d", op.Act, i)
+				return
+			}
+			res.Modelled = false
+			var cerr, oerr error
+			var nf *sftp.File
+			okc, pnc := xfGuardK(kase, func() {
+				if cerr = f.Close(); cerr == nil {
+					nf, oerr = m.Open(cli, path0)
+				}
+			})
+			switch {
+			case !okc:
+				fail(i, "seq/ro/hang", "Close + open again did not return within 20 s", "return", "hang")
+				hung = true
+				if hold != nil {
+					hold.Close()
+				}
+				return
+			case pnc != nil:
+				fail(i, "seq/ro/panic", "Close + open again panicked", nil, fmt.Sprint(pnc))
+				return
+			case cerr != nil:
+				fail(i, "seq/ro/close", "Close (before the name is opened again) failed", "<nil>", cerr.Error())
+				return
+			case oerr != nil:
+				fail(i, "seq/ro/open/"+m.Name, "opening the served file again in this mode failed", "<nil>", oerr.Error())
+				return
+			}
+			f = nf
+			wantCloses++
+			tw.Close()
+			flags := os.O_RDWR
+			if m.Trunc() {
+				flags |= os.O_TRUNC
+			}
+			ntw, e := os.OpenFile(twinPath, flags, 0)
+			if e != nil {
+				res.SetupErr = fmt.Errorf("twin: %v", e)
+				return
+			}
+			tw, lastOff, virt = ntw, 0, nil
+			want := xfReadFd(twRef)
+			if got := getFile(); !bytes.Equal(got, want) {
+				fail(i, "seq/ro/"+m.Name+"/content", fmt.Sprintf("served file differs from the os twin after the name was opened again (sizes %d vs %d, first difference at %d)", len(got), len(want), xfFirstDiff(got, want)),
+					xfShort(want), xfShort(got))
+				return
+			}
+			res.Marks["call=ro|"+m.Name]++
+			continue
+		}
+		if (op.K == "cm" || op.K == "co" || op.K == "sy") && !closed {
+			res.SetupErr = fmt.Errorf("op %s is written after a Close only (call #%d)", op.K, i)
+			return
+		}
+		if op.K == "cl" && op.Act != "" && !closed {
+			// what happens to the CLOSE request itself (c12_closereply.go)
+			var e error
+			switch {
+			case op.Act == "refuse" && peer != nil:
+				peer.SetBehaviour(func(o *xfPeerOpts) { o.CloseFail = &xfFail{Code: op.Code, Msg: xfCloseRefusedMsg} })
+			case op.Act == "cut" && peer != nil:
+				peer.SetBehaviour(func(o *xfPeerOpts) { o.CloseCut = true })
+				cutConn = true
+			case op.Act == "handler" && real != nil && real.Mem != nil:
+				e = real.Mem.SetCloseErr(op.Src)
+			default:
+				e = fmt.Errorf("close disposition %q is not available against server kind %s", op.Act, sc.Srv)
+			}
+			if e != nil {
+				res.SetupErr = e
+				return
+			}
 		}
 		if op.model() == "" {
 			res.Modelled = false
@@ -692,6 +797,12 @@ func xfRunSeq(sc xfSeqCase, real *xfReal, hold *xfPeerHold, dir string) (res xfS
 			case "cl":
 				serr = f.Close()
 				terr = tw.Close()
+			case "cm":
+				serr, terr = f.Chmod(0o600), tw.Chmod(0o600)
+			case "co":
+				serr, terr = f.Chown(0, 0), tw.Chown(0, 0)
+			case "sy":
+				serr, terr = f.Sync(), tw.Sync()
 			}
 		})
 		consumed := int64(-1)
@@ -759,6 +870,45 @@ func xfRunSeq(sc xfSeqCase, real *xfReal, hold *xfPeerHold, dir string) (res xfS
 				fail(i, "after-close/twin/"+op.K, "os.File itself does not return os.ErrClosed here", "os.ErrClosed", fmt.Sprint(terr))
 			}
 			parts = append(parts, fmt.Sprintf("%d:0:closed:7", lastOff))
+			continue
+		}
+		if op.K == "cl" && op.Act != "" {
+			// The CLOSE request was sent and something other than SSH_FX_OK came of it. The File is closed all the same
+			// (a server releases the handle when it gets the request, whatever it answers): from here on every method
+			// answers os.ErrClosed and nothing goes out - the calls that follow are judged as after any Close.
+			switch {
+			case peer != nil:
+				peer.SetBehaviour(func(o *xfPeerOpts) { o.CloseFail, o.CloseCut = nil, false })
+			case real.Mem != nil:
+				real.Mem.SetCloseErr("")
+			}
+			res.Modelled = false
+			got := fmt.Sprintf("%v", serr)
+			switch op.Act {
+			case "refuse":
+				if want := (xfFail{Code: op.Code, Msg: xfCloseRefusedMsg}); !xfErrIs(serr, want) {
+					fail(i, "seq/cl/refuse/result", "Close must return the failure status the server answered the CLOSE request with", fmt.Sprintf("status %d %q", want.Code, want.Msg), got)
+					return
+				}
+			default:
+				if serr == nil || errors.Is(serr, os.ErrClosed) {
+					fail(i, "seq/cl/"+op.Act+"/result", "the CLOSE request came to nothing (connection cut / the file object's Close failed): this first Close must return an error of its own", "an error other than os.ErrClosed", got)
+					return
+				}
+			}
+			if terr != nil {
+				fail(i, "seq/cl/twin", "os.File.Close failed", nil, terr.Error())
+				return
+			}
+			closed = true
+			k := "call=cl|CLOSE-request=" + op.Act
+			if op.Act == "refuse" {
+				k += fmt.Sprintf("|status-code=%d", op.Code)
+			} else if op.Act == "handler" {
+				k += "|err=" + op.Src
+			}
+			res.Marks[k]++
+			parts = append(parts, fmt.Sprintf("%d:0:%s:7", lastOff, xfErrClass(serr)))
 			continue
 		}
 		if noRead && (op.K == "r" || op.K == "ra" || op.K == "wt") {
@@ -1092,7 +1242,18 @@ func xfRunSeq(sc xfSeqCase, real *xfReal, hold *xfPeerHold, dir string) (res xfS
 		switch op.K {
 		case "w", "wa", "rf", "rfc", "tr":
 			want := xfReadFd(twRef)
-			if got := getFile(); !bytes.Equal(got, want) {
+			got := getFile()
+			if sc.Srv.InMem && op.N == 0 && op.K != "tr" && xfZeroExtended(want, got, max(start, offBefore)) {
+				// (documented difference of the example backend, see xfInMemEmptyWrite: an empty WRITE beyond the end of the file
+				// extends it with zeros; the twin is brought to the same state and the sequence goes on)
+				if tw.Truncate(int64(len(got))) != nil {
+					return
+				}
+				res.Modelled = false
+				res.Marks["InMemHandler|empty-write-beyond-end-of-file-extends-the-file-with-zeros(documented difference, not asked)"]++
+				continue
+			}
+			if !bytes.Equal(got, want) {
 				fail(i, key+"/content", fmt.Sprintf("served file differs from the os twin after the call (sizes %d vs %d, first difference at %d)", len(got), len(want), xfFirstDiff(got, want)),
 					xfShort(want), xfShort(got))
 				return
@@ -1106,8 +1267,8 @@ func xfRunSeq(sc xfSeqCase, real *xfReal, hold *xfPeerHold, dir string) (res xfS
 	if closed {
 		switch {
 		case peer != nil:
-			if n := peer.Closes(); n != 1 {
-				fail(len(sc.Ops), "close-count/peer", "not exactly one CLOSE request was sent", 1, n)
+			if n := peer.Closes(); n != wantCloses {
+				fail(len(sc.Ops), "close-count/peer", "not exactly one CLOSE request was sent per handle", wantCloses, n)
 			}
 			for _, q := range peer.Log() {
 				if q.Stale {
@@ -1116,8 +1277,8 @@ func xfRunSeq(sc xfSeqCase, real *xfReal, hold *xfPeerHold, dir string) (res xfS
 				}
 			}
 		case real.Mem != nil:
-			if _, n := real.Mem.Counts(); n-closesBefore != 1 {
-				fail(len(sc.Ops), "close-count/rs", "the handler's Close was not called exactly once", 1, n-closesBefore)
+			if _, n := real.Mem.Counts(); n-closesBefore != wantCloses {
+				fail(len(sc.Ops), "close-count/rs", "the handler's Close was not called exactly once per handle", wantCloses, n-closesBefore)
 			}
 			fallthrough
 		default:
@@ -1251,7 +1412,8 @@ func xfGenSeq(rng *rand.Rand, cfg xfCfg, n int, failable, disturb bool, readCap 
 					op.Fail = append(op.Fail, rng.Intn(nch))
 				}
 				// (SSH_FX_EOF: for a READ the server's way of saying the file ends there, for a WRITE a failure whose error is io.EOF)
-				op.Code = []uint32{wire.Failure, wire.Failure, wire.PermissionDenied, wire.EOF, wire.OpUnsupported, wire.NoSuchFile, 255, wire.EOF}[rng.Intn(8)]
+				// (and codes beyond 255 whose low byte is that of OK / EOF: failures like any other)
+				op.Code = []uint32{wire.Failure, wire.Failure, wire.PermissionDenied, wire.EOF, wire.OpUnsupported, wire.NoSuchFile, 255, wire.EOF, 256, 257, 0xFFFFFF01}[rng.Intn(11)]
 			}
 		}
 		if int64(cur) > limit {
@@ -1737,6 +1899,7 @@ func checkC12(c *lib.Ctx) {
 	res := &xfRes{r: r}
 	thorough := c.Tier == "thorough"
 	r.Rule = "(a) WriteTo offset sweep: file sizes 0..3*mp*min(conc,3)+2 x start offsets {0,1,mp,size-1,size,size+1} x UseConcurrentReads x UseFstat x (mp,conc) on the scripted peer; (b) PRNG sequences (quick ~12, thorough ~40 calls + Close + 4..18 calls after Close) of Read/ReadAt/Write/WriteAt/ReadFrom(6 source kinds)/ReadFromWithConcurrency/WriteTo/Seek(whence 0,1,2 and invalid 5,7,-1; negative targets; one in seven with an offset at the edges of int64, followed by a Seek back)/Stat/Truncate on os-backed server, request server and scripted peer (in order and permuted replies); in every second peer sequence a quarter of the read/write calls have 1-2 PRNG-chosen chunks answered with a status of code 4/3/1(SSH_FX_EOF)/8/2/255, in every second request-server sequence the handler refuses writes beyond a PRNG quota: there the reference is offset-before + the intact prefix the server side recorded as stored (ReadAt/WriteAt: unchanged) x client options (quick: every (mp,conc) pair with rotating booleans, thorough: full product), mirrored on an *os.File; (b') per server kind and option set 7 (thorough 42) written-out sequences around a disturbed NAME with the handle open (op nm: rename away / remove / rotate / replace by a shorter or longer file / directory / symlink / dangling link, a second different one later; file sizes {0,1,mp,mp+1,2mp,3mp+2}; after each: Seek(x, io.SeekEnd) for x in {0,-1,-size,-size-1 (negative result: rejected without moving),+mp+1}, append, Read, Stat, WriteTo, Truncate, ReadFrom, ReadAt/WriteAt, Close), and every third PRNG sequence draws nm steps (each followed by 0-2 end-relative seeks) among its calls: real renames/removals on the os-backed server, differing STAT/LSTAT(path) vs FSTAT(handle) answers on the request server and the scripted peer, the same done to the os.File twin's name; every Seek's requests are read off the wire (none, or exactly one FSTAT on the handle for io.SeekEnd); (b'') per option set 6 (thorough: all 96) written-out chains of offset-relative calls on ONE handle: Seek to a non-zero start, a transfer variant {ReadFromWithConcurrency(0,1,3), ReadFrom(Len/Size/Stat/LimitedReader: concurrent when UseConcurrentWrites and more than one packet; opaque: sequential), Write, WriteTo, Read} of 2-4 packets, a follower {Write, empty Write+Write, ReadFrom, ReadFromWithConcurrency, Read, WriteTo, Seek(0/1, io.SeekCurrent)}, the transfer variant again, the follower again, Seek(0, io.SeekCurrent), a third transfer, Write, Stat, Close: offset, bytes and content after every call against the os.File twin; x open mode of the File {O_RDWR, +O_CREATE, +O_APPEND, +O_TRUNC, Client.Create(), O_CREATE|O_TRUNC, O_CREATE|O_EXCL on a new name} rotating over chains and PRNG sequences (twin opened alike; O_APPEND is a no-op for the servers, so the twin is opened without it) x servers {os, rs, os+allocator, rs+allocator+max-tx 65536, os+max-tx 65536, os+allocator+max-tx 65536 (these three also with client packet size 40000), request server without sftp.OpenFileWriter (reads through the Filewrite handle must fail with the failure status, deliver nothing and leave the offset alone; writes, seeks, Stat, Truncate go on), client packet size 40000 > default max payload with concurrent reads off}; (b3) client packet size ABOVE what the server returns per READ, a chunk taking three or more READs (each asking for the rest at chunk offset + bytes so far): MaxPacketUnchecked(2*cap+1, 3*cap, 100000, 262000) against {os, rs} x {allocator off, on} with the default max payload (cap 32768) and with max-tx 65536 (quick: per server kind one size with concurrent reads off and one with them on, rotating with the seed so that the default-payload servers together see all four sizes either way; thorough: all), and packet sizes 3,4,7 (32768) against the scripted peer whose DATA replies carry at most 1,2,3 (10000) bytes x MaxConcurrentRequestsPerFile rotating; with concurrent reads OFF these configurations get all the generators above (chains, name sequences, PRNG sequences with lengths/offsets also aimed at cap, cap+1, 2cap, 2cap+1, 3cap+1, mp+2cap+1) plus xfGenCapSeq; with concurrent reads ON only xfGenCapSeq, which keeps to the refilling read paths (Read/ReadAt of at most one packet; WriteTo after the file was truncated to at most one packet = sequential after STAT). xfGenCapSeq: 6-13 (small packets: 6-17) calls of Read x4/ReadAt x3/WriteTo x2/Seek x2/Write/WriteAt/ReadFrom/Truncate/Stat + Close + calls after Close; read lengths from {1,cap-1,cap,cap+1,2cap-1,2cap,2cap+1,3cap,3cap+1,mp-1,mp} and (concurrent reads off) {mp+1,mp+cap+1,mp+2cap+1,2mp,2mp+1,2mp+2cap+1,3mp+1}, a fifth uniform; offsets from {0,1,cap-1,cap,cap+1,2cap+1,mp,mp+1,size-1,size,size+1,size-2cap-1,size-2cap,size-3cap-1,size-mp,current, and such that the read ends at / one before / one beyond end of file or its 2nd/3rd READ meets it}; file sizes {2cap+1,3cap,3cap+1,mp-1,mp,mp+1,mp+2cap+1,2mp+1,2mp+2cap+2,3mp+2}; 10 such sequences per big-packet job, 24 per small-packet job (thorough x4); the histogram (above-cap|…|data-READs-per-chunk) says how many READs the fullest chunk of each read call took; (b4) per server kind and option set 2 (thorough 8) written-out sequences of Seeks at the edges of int64 (c12_seekedge.go): the offset is made non-zero by a Read, a Write, a Seek or Read+Seek on a file of {1,2,mp,mp+1,2mp+1,3mp+2} bytes, then for whence start, current, end every offset of {MaxInt64, MaxInt64-1, MinInt64, MinInt64+1, +-2^62, +-2^32, 2^32-1, 2^31, MaxInt64-base, MaxInt64-base+-1, -base, -base+-1, MaxInt64/2(+1), MinInt64/2} (base = 0 / current offset / size); after a seek that was taken far out, current-relative steps to and across MaxInt64 (+1, MaxInt64-offset, +1; MaxInt64; MinInt64, -offset-1), then back to a small non-zero offset by one of three routes; finally Read, Write, Close, Seeks after Close. Reference: the os.File twin where its file system takes the target, else (and while the File stands at such a position) the arithmetic itself: target = base + offset over the integers must be taken iff it is a non-negative int64, else refused with os.ErrInvalid without moving (Seek(0, io.SeekCurrent) asked after every call); (c) Close raced by 2 closers against 3..8 goroutines of ReadAt/WriteAt/Stat/Truncate on the scripted peer with the raw request stream parsed (c') two calls on ONE fresh File leaving a spin barrier at the same moment (in most attempts of the pairs other than Close||Close one side starts 40-5000 atomic increments late, either side), 150 attempts per job (Close||Close: 2000; 32 KiB packets: a quarter), on the scripted peer which counts the requests per handle: Close||Close x 6 option sets, Close||{Read, Write, Seek(start), Seek(end), Stat, ReadAt, WriteAt, Truncate, WriteTo, ReadFrom} and Seek||Read, Seek||Write, Seek||Seek, Read||Read, Write||Write, Read||Write x 2 option sets (thorough x4), lengths {1, mp, mp+1, 2mp+1} on a file of 3mp+2 bytes: exactly one CLOSE request and no request with the closed handle after it, {nil, os.ErrClosed} for two Closes, os.ErrClosed or the call's own result beside a Close, the results + final offset + content of one of the two orders for two offset-moving calls, os.ErrClosed from every method afterwards; non-trivial = a sequence that moves the offset through at least two different methods; distinct by the whole case text"
+	r.Rule += "; (b5) the request server over the package's OWN example backend sftp.InMemHandler() (xfer_inmem.go) gets the chains, the seek-edge sequences and the PRNG sequences too (no name disturbances: its names are its own; 32 KiB packets with at most 3 requests per file); (b6) per server kind and option set 2 (thorough 6) HISTORIES of one file (xfer_hist.go: data up to hi, shrink by Truncate / Close + open again with O_TRUNC / Create() / the open of the sequence itself, a sparse write beyond the new end by WriteAt / Seek+Write / Seek+ReadFrom / Seek+ReadFromWithConcurrency, everything read back; op ro = Close + open the same name again, on the twin alike: exactly one CLOSE per handle); (d) the reply to the CLOSE request itself (c12_closereply.go), 2 (thorough 12) sequences per scripted-peer and request-server job: after 0-3 calls that leave the offset non-zero the CLOSE is answered with a failure status of code {4,3,2,256,5,6,7,8,255,1,2^32-1,257} (scripted peer, 4 of 5), the connection is cut instead of an answer (scripted peer, 1 of 5), or the file object of the request server's handler fails its Close() with one of the 29 error values of xfHandlerErrs (opens served by OpenFile, and by Filewrite when FilePut is no OpenFileWriter); the handle is released by the server when the request arrives, so: that first Close returns the server's failure (cut: an error of its own), and then EVERY File method once in a PRNG order - Read x2, ReadAt x2, Write x2, WriteAt x2, ReadFrom x3, ReadFromWithConcurrency, WriteTo, Seek x5, Stat, Truncate x2, Chmod, Chown, Sync, Close, and one more Close at the end - must return os.ErrClosed (the os.File twin agrees), exactly one CLOSE request was sent and no request naming the released handle reached the peer; the status codes of failing chunks inside sequences now include 256, 257 and 0xFFFFFF01"
 	model := xfProbeModel(c)
 	xfProbeDefects(&model)
 	r.Note("client packet sizes above the server's max payload are asked on the REFILLING read paths only (Read/ReadAt of at most one packet, every read with UseConcurrentReads(false), sequential WriteTo): the concurrent readers take a short DATA reply for end of file, so with concurrent reads on and such a packet size ReadAt of several packets and WriteTo of a larger file lose data on the unchanged code - outside C01's quantifier (\"as long as the client's packet size does not exceed the server's maximum payload\"), not asked and not reported here")
@@ -1883,7 +2046,9 @@ func checkC12(c *lib.Ctx) {
 
 	// (b) sequences
 	specs := []xfSrvSpec{{Kind: "os"}, {Kind: "rs"}, {Kind: "peer"}, {Kind: "peer", Perm: true}, {Kind: "os", Alloc: true}, {Kind: "rs", Alloc: true, MaxTx: 65536},
-		{Kind: "os", MaxTx: 65536}, {Kind: "os", Alloc: true, MaxTx: 65536}, {Kind: "rs", NoOFW: true}}
+		{Kind: "os", MaxTx: 65536}, {Kind: "os", Alloc: true, MaxTx: 65536}, {Kind: "rs", NoOFW: true},
+		// the request server over the package's own example backend sftp.InMemHandler() (xfer_inmem.go)
+		{Kind: "rs", InMem: true}}
 	var jobs []xfJob
 	rot := int(c.Seed % 8)
 	for si, sp := range specs {
@@ -1895,9 +2060,13 @@ func checkC12(c *lib.Ctx) {
 			}
 		}
 		for _, cfg := range cfgs {
+			if sp.InMem && cfg.MP > 1000 && cfg.Conc > 3 {
+				continue // (memFile.WriteAt sleeps a microsecond per byte)
+			}
 			jobs = append(jobs, xfJob{Spec: sp, Cfg: cfg, Seed: c.Rand.Int63(), Idx: len(jobs)})
 		}
 		switch {
+		case sp.InMem:
 		case sp.MaxTx >= 40000:
 			// a server whose max payload was raised serves a larger client packet size too
 			for b, conc := range []int{1, 3, 64} {
@@ -2003,8 +2172,8 @@ func checkC12(c *lib.Ctx) {
 		if thorough {
 			nameSeqs *= 6
 		}
-		if job.Spec.NoOFW {
-			nameSeqs = 0 // (the written-out name sequences read through the handle at every step)
+		if job.Spec.NoOFW || job.Spec.InMem {
+			nameSeqs = 0 // (the written-out name sequences read through the handle at every step; InMemHandler's names are its own)
 		}
 		// the chains of offset-relative calls: quick rotates through the (transfer, follower) pairs, thorough takes them all
 		nPairs := len(xfChainFirst) * len(xfChainThen)
@@ -2050,14 +2219,35 @@ func checkC12(c *lib.Ctx) {
 		if readCap > 0 && job.Cfg.CR {
 			edgeSeqs = 0
 		}
-		for s := -nameSeqs - chainSeqs - edgeSeqs; s < perJob+capSeqs; s++ {
+		// histories of one file (xfer_hist.go: data, shrink, sparse write beyond the new end, read back) and sequences whose
+		// CLOSE request comes to something other than SSH_FX_OK (c12_closereply.go: scripted peer and the harness's handlers)
+		histSeqs, closeSeqs := 2, 0
+		if job.Spec.Kind == "peer" || (job.Spec.Kind == "rs" && !job.Spec.InMem) {
+			closeSeqs = 2
+		}
+		if thorough {
+			histSeqs, closeSeqs = 6, closeSeqs*6
+		}
+		if readCap > 0 && job.Cfg.CR {
+			histSeqs, closeSeqs = 0, 0 // (only xfGenCapSeq keeps to the refilling read paths)
+		}
+		for s := -nameSeqs - chainSeqs - edgeSeqs; s < perJob+capSeqs+histSeqs+closeSeqs; s++ {
 			if hangs.Spent(job.Spec) {
 				return
 			}
 			var S int
 			var ops []xfOp
 			tag := ""
-			if s < -nameSeqs-chainSeqs {
+			var ready *xfSeqCase // the sequence comes with its open mode
+			if s >= perJob+capSeqs+histSeqs {
+				t := s - perJob - capSeqs - histSeqs
+				S, ops = xfCloseReplySeq(rng, job.Spec, job.Cfg, job.Idx*closeSeqs+t+rot)
+				tag = "close-reply"
+			} else if s >= perJob+capSeqs {
+				hc := xfHistCase(rng, job.Spec, job.Cfg, job.Idx*histSeqs+s+rot)
+				hc.ShortCap = job.ShortCap
+				ready, S, ops, tag = &hc, hc.FileLen, hc.Ops, "history"
+			} else if s < -nameSeqs-chainSeqs {
 				t := s + nameSeqs + chainSeqs + edgeSeqs
 				mp := job.Cfg.MP
 				S = []int{1, mp + 1, 3*mp + 2, 2, mp, 2*mp + 1}[(job.Idx+t)%6]
@@ -2092,12 +2282,15 @@ func checkC12(c *lib.Ctx) {
 				if job.Cfg.MP > 1000 {
 					n = 4 + rng.Intn(6)
 				}
-				S, ops = xfGenSeq(rng, job.Cfg, n, job.Spec.Kind == "peer" && s%2 == 1 && job.ShortCap == 0, s%3 == 2 && !job.Spec.NoOFW, readCap)
+				S, ops = xfGenSeq(rng, job.Cfg, n, job.Spec.Kind == "peer" && s%2 == 1 && job.ShortCap == 0, s%3 == 2 && !job.Spec.NoOFW && !job.Spec.InMem, readCap)
 			}
 			sc := xfSeqCase{Srv: job.Spec, Cfg: job.Cfg, FileLen: S, Ops: ops, Window: 1, Tag: tag, ShortCap: job.ShortCap}
+			if ready != nil {
+				sc = *ready
+			}
 			// the open mode rotates over the sequences (the written-out name sequences keep track of the exact size
 			// themselves and stay with plain O_RDWR)
-			if s >= 0 || s < -nameSeqs {
+			if ready == nil && (s >= 0 || s < -nameSeqs) {
 				name := xfSeqOpenModes[(job.Idx*3+s+nameSeqs+chainSeqs+edgeSeqs+rot)%len(xfSeqOpenModes)]
 				if m, _ := xfOpenModeByName(name); m.Empties() && (strings.HasPrefix(tag, "chain|first=wt") || strings.HasPrefix(tag, "chain|first=r|") || strings.HasPrefix(tag, "seek-edges") || s >= perJob) {
 					name = "rdwr+append" // these chains need something to read (and xfGenCapSeq keeps track of the exact size)
@@ -2111,7 +2304,7 @@ func checkC12(c *lib.Ctx) {
 					sc.Seed = rng.Int63() >> 11
 					sc.Window = 2 + rng.Intn(job.Cfg.Conc+1)
 				}
-			} else if job.Spec.Kind == "rs" && s%2 == 1 && s < perJob {
+			} else if job.Spec.Kind == "rs" && !job.Spec.InMem && s%2 == 1 && s < perJob {
 				sc.Limit = int64(S/2 + 1 + rng.Intn(S/2+2*job.Cfg.MP+2))
 			}
 			if readCap > 0 {
